@@ -83,7 +83,66 @@ fn run_world<W: World>(world: W, tier: Tier) -> i32 {
                 exit = 1;
             }
             other => {
-                harness_error(&format!("violation did not reproduce from its replay file in a fresh process ({other:?}); the harness is non-deterministic, nothing it says should be believed"));
+                // Not reproduced alone in a fresh process. Either the harness is non-deterministic, or
+                // the violation depends on state that earlier runs of the same worker process left
+                // behind. Decide which: re-execute, in one fresh process, the runs that worker had
+                // executed before (same order) followed by the failing run.
+                let same_kind = |r: Isolated| -> Option<Violation> {
+                    match r {
+                        Isolated::Finished(Some(v2)) if v2.kind == v.kind => Some(v2),
+                        _ => None,
+                    }
+                };
+                let n = workers().max(1).min(runs.max(1) as usize) as u64;
+                let gen = |i: u64| world.generate_indexed(i, case_seed(seed, world.name(), i), tier);
+                let mut prefix: Vec<u64> = (0..*run).filter(|i| i % n == run % n).collect();
+                let mut seq: Vec<_> = prefix.iter().map(|i| gen(*i)).collect();
+                seq.push(case.clone());
+                if same_kind(run_cases_isolated(&world, &seq, 600)).is_none() {
+                    harness_error(&format!("violation did not reproduce from its replay file in a fresh process ({other:?}), nor from the sequence of runs its worker had executed; the harness is non-deterministic, nothing it says should be believed"));
+                }
+                // minimise the history: which earlier runs are needed?
+                let mut tried2 = 0;
+                let mut chunk = (prefix.len() / 2).max(1);
+                while !prefix.is_empty() && tried2 < 80 {
+                    let mut removed_any = false;
+                    let mut start = 0;
+                    while start < prefix.len() && tried2 < 80 {
+                        let end = (start + chunk).min(prefix.len());
+                        let cand: Vec<u64> = prefix[..start].iter().chain(prefix[end..].iter()).copied().collect();
+                        let mut seq: Vec<_> = cand.iter().map(|i| gen(*i)).collect();
+                        seq.push(case.clone());
+                        tried2 += 1;
+                        if same_kind(run_cases_isolated(&world, &seq, 600)).is_some() {
+                            prefix = cand;
+                            removed_any = true;
+                        } else {
+                            start += chunk;
+                        }
+                    }
+                    if chunk == 1 && !removed_any {
+                        break;
+                    }
+                    chunk = (chunk / 2).max(1);
+                }
+                let pre: Vec<_> = prefix.iter().map(|i| gen(*i)).collect();
+                // with no earlier run needed, the case itself can still be minimised, one fresh process per candidate
+                let (fin_case, fin_v, tried3) = if pre.is_empty() { minimise_opt(&world, case, v, &known, true) } else { (case.clone(), v.clone(), 0) };
+                let path = write_replay_with(&vd, &world, seed, *run, &pre, &fin_case, &fin_v, case, tried + tried2 + tried3);
+                if prefix.is_empty() {
+                    println!("the code under test keeps process-wide state: candidates executed in one process influenced each other, so the case was minimised again with one fresh process per candidate; replay file {path}");
+                } else {
+                    println!("the violation depends on state left behind in the process by earlier run(s) {prefix:?}; replay file {path} carries them as `preceding`");
+                }
+                let exe = std::env::current_exe().unwrap_or_else(|_| "cedar-sim".into());
+                let st = std::process::Command::new(exe).arg("replay").arg(&path).arg("--quiet").status();
+                match st {
+                    Ok(s) if s.code() == Some(1) => {
+                        println!("VIOLATION property={} replay={}", world.property(), path);
+                        exit = 1;
+                    }
+                    other => harness_error(&format!("cross-run violation did not reproduce from its replay file ({other:?})")),
+                }
             }
         }
     }
@@ -149,9 +208,13 @@ fn exec_case_world<W: World>(world: W, args: &[String]) -> i32 {
     let world = Arc::new(world);
     let known = Arc::new(load_known_findings(&verif_dir()));
     let s = std::fs::read_to_string(&args[3]).unwrap_or_else(|e| harness_error(&format!("cannot read case file: {e}")));
-    let case: W::Case = serde_json::from_str(&s).unwrap_or_else(|e| harness_error(&format!("bad case file: {e}")));
-    let out = run_case(&world, &case, &known, false);
-    let _ = std::fs::write(&args[4], serde_json::to_string(&out.violation).unwrap_or_else(|_| "null".into()));
+    // a sequence of cases, executed one after the other in this process; the verdict is about the last
+    let cases: Vec<W::Case> = serde_json::from_str(&s).unwrap_or_else(|e| harness_error(&format!("bad case file: {e}")));
+    let mut last = None;
+    for case in &cases {
+        last = run_case(&world, case, &known, false).violation;
+    }
+    let _ = std::fs::write(&args[4], serde_json::to_string(&last).unwrap_or_else(|_| "null".into()));
     0
 }
 
